@@ -99,8 +99,12 @@ func main() {
 		for _, cl := range []bool{false, true} {
 			for _, rt := range retries {
 				if r.Thorough() {
+					d := depth
+					if rt == 1 && (tz == "UTC" || tz == "America/Los_Angeles") && os.Getenv("VERIF_C04_DEPTH") == "" {
+						d = depth + 1 // one level deeper where the zone matters (west of UTC vs. none), default retry
+					}
 					for first := range bEvents { // shard by first event
-						jobs = append(jobs, job{bConfig{TZ: tz, Cluster: cl, Retry: rt, Depth: depth, First: first}})
+						jobs = append(jobs, job{bConfig{TZ: tz, Cluster: cl, Retry: rt, Depth: d, First: first}})
 					}
 				} else {
 					jobs = append(jobs, job{bConfig{TZ: tz, Cluster: cl, Retry: rt, Depth: depth, First: -1}})
@@ -182,6 +186,12 @@ func main() {
 		}
 		for c, n := range res.ClassCount {
 			classCount[c] += n
+			cc, _ := m["states_in_violation"].(map[string]int64)
+			if cc == nil {
+				cc = map[string]int64{}
+				m["states_in_violation"] = cc
+			}
+			cc[c] += n
 		}
 		for o, n := range res.Outcomes {
 			outcomes[o] += n
@@ -203,6 +213,9 @@ func main() {
 		}
 	}
 	r.Extra["b_depth"] = depth
+	if r.Thorough() {
+		r.Extra["b_depth_note"] = "depth+1 for TZ in {UTC, America/Los_Angeles} with retry_attempts=1 (both cluster modes)"
+	}
 	r.Extra["b_events"] = bEvents
 	r.Extra["b_configurations"] = perCfg
 	r.Extra["b_event_outcomes"] = outcomes
